@@ -66,13 +66,14 @@ FLOORS = {
                            "lines_compared": 600000},
               "sets": {"delimiters": 8, "blockings": 6000},
               "max_skipped_fraction": 0.1},
-    "thorough": {"evaluations": 15000, "distinct_nontrivial": 14000,
-                 "counters": {"read_bytes_calls": 200000, "blocks_computed": 900000, "files_concat_checked": 200000,
-                              "internal_boundaries_checked": 200000, "read_text_calls": 120000,
-                              "read_text_blocksize_int": 90000, "read_text_blocksize_none": 20000,
-                              "read_text_include_path": 6000, "read_text_files_per_partition": 4000,
-                              "lines_compared": 500000},
-                 "sets": {"delimiters": 8, "blockings": 1500},
+    "thorough": {"evaluations": 15500, "distinct_nontrivial": 14000,
+                 "counters": {"read_bytes_calls": 144000, "blocks_computed": 480000, "files_concat_checked": 189000,
+                              "files_split_into_several_nonempty_blocks": 62000,
+                              "internal_boundaries_checked": 150000, "read_text_calls": 115000,
+                              "read_text_blocksize_int": 82000, "read_text_blocksize_none": 33000,
+                              "read_text_include_path": 22000, "read_text_files_per_partition": 9000,
+                              "lines_compared": 9000000},
+                 "sets": {"delimiters": 8, "blockings": 70000},
                  "max_skipped_fraction": 0.1},
 }
 EXHAUSTIVE_SPACE = {
@@ -164,7 +165,7 @@ def cases(tier, seed):
     for d in EXH_DELIMS:
         for syms in _exh_contents(d, lmax):
             yield {"space": "exhaustive", "delim": d, "syms": syms}
-    k = 1500 if tier == "quick" else 30000
+    k = 1500 if tier == "quick" else 20000
     for _ in range(k):
         delim = rng.choice(DELIM_POOL)
         enc = "utf-8" if (delim is not None and not delim.isascii()) or rng.random() < 0.7 else "latin-1"
